@@ -2,7 +2,7 @@
 from __future__ import annotations
 
 from ..report import Result
-from ..rules.formula import effects_check
+from ..rules.formula import effects_check, formula_check
 from ..rules.guard import run_guard
 
 EXPLANATION = (
@@ -138,6 +138,13 @@ def run(model, tier="quick"):
     # constructors establish the relations between fields that the references above take for granted
     from .ctor_refs import constructors
     res.units["constructor_references"] = constructors(res, model, ('market', 'broker', 'pool'))
+    # premises: an LP position is lent to ONE vault (twice lent = counted twice = value created); the GLP fee is never
+    # negative (a negative fee pays the trader)
+    from . import C01 as _C01, C17 as _C17
+    effects_check(res, model, "UniLpMarket.transfer_position_out", _C01.REF_TRANSFER_OUT, "lend: only an existing, not yet lent position", _C01.FX, keep_raise_effects=True)
+    effects_check(res, model, "UniLpMarket.transfer_position_in", _C01.REF_TRANSFER_IN, "take back: only a lent position", _C01.FX, keep_raise_effects=True)
+    formula_check(res, model, "GmxMarket.get_fee_basis_points", _C17.REF_FEE_BPS,
+                  "GLP mint / burn fee: VaultUtils decision tree, hence 0 <= fee <= base + tax (never a payment to the trader)", opaque=["get_target_amount"])
     from ..rules.fresh import fresh_rule
     if "R-FRESH" not in res.rules:
         res.rules.append("R-FRESH")
